@@ -1,5 +1,10 @@
 import Mdsort.Proofs.WorldOwn
 import Mdsort.Proofs.Captures
+import Mdsort.Proofs.WorldFds
+import Mdsort.Proofs.ExecStdin
+import Mdsort.Proofs.WorldFdsEx
+import Mdsort.Proofs.ExecStatus
+import Mdsort.Proofs.ExecSeqEx
 import Mdsort.Proofs.EvalPFail
 
 /-!
@@ -26,7 +31,7 @@ theorem C13_argv (macros : Option (List (Bytes × Bytes))) (ml : MatchList) (i :
 exit code for 1..126 and 128.., -1 for 127, 128 + signal for a signalled child, -1 when /dev/null,
 fork or waitpid fail. -/
 theorem C13_status (fdin : Option Handle) (orc : Nat → Call → Res) :
-    ∃ devnullOk forkRes waitRes, (runOracle orc (execP fdin) 0 []).1 = Proofs.execValue devnullOk forkRes waitRes :=
+    ∃ devnullOk forkRes waitRes, (runOracle orc (execP fdin) 0 []).1 = Model.execValue devnullOk forkRes waitRes :=
   Proofs.execP_value fdin orc
 
 /-- A non-zero value of `exec()` is an error of the exec action ... -/
@@ -43,6 +48,124 @@ theorem C13_error_stops_actions (env : PEnv) (mh : Match) (rest rest' : MatchLis
     (runOracle orc (matchesExec env (mh :: rest) st) 0 []).1.2 = true ∧
     (runOracle orc (matchesExec env (mh :: rest) st) 0 []).2 = (runOracle orc (matchesExec env (mh :: rest') st) 0 []).2 :=
   Proofs.error_stops_list env mh rest rest' st orc he
+
+/-! ## The status mapping, for every wait status
+
+`Model.execStatus` is the tail of `exec()` (util.c 121-128) on the raw wait status, `Model.wifexited` / `wexitstatus` /
+`wifsignaled` / `wtermsig` the macros of `<sys/wait.h>`; `Proofs.waitKind` reads a status as `exited code`, `signaled sig`
+or `stopped` (the last is never reported by `waitpid(pid, &status, 0)`).  `Proofs.childOutcome devnullOk forkRes waitRes`
+is `cannotRun` when /dev/null cannot be opened, `fork` fails or `waitpid` fails, and `waited kind` otherwise. -/
+
+/-- `exec()` on every wait status: 0 iff the child exited with 0; negative (fatal) iff it exited with 127; positive iff it
+exited with 1..126 or 128..255, was killed by a signal (then the value is 128 + signal) or is reported as stopped; and the
+value for an exit code other than 127 is that code. -/
+theorem C13_exec_status_mapping (s : Nat) :
+    (execStatus s = 0 ↔ Proofs.waitKind s = .exited 0) ∧
+    (execStatus s < 0 ↔ Proofs.waitKind s = .exited 127) ∧
+    (0 < execStatus s ↔ (∃ c, Proofs.waitKind s = .exited c ∧ c ≠ 0 ∧ c ≠ 127) ∨ (∃ g, Proofs.waitKind s = .signaled g) ∨
+      Proofs.waitKind s = .stopped) ∧
+    (∀ c, Proofs.waitKind s = .exited c → c < 256 ∧ (c ≠ 127 → execStatus s = (c : Int))) ∧
+    (∀ g, Proofs.waitKind s = .signaled g → 1 ≤ g ∧ g ≤ 126 ∧ execStatus s = ((128 + g : Nat) : Int)) :=
+  ⟨Proofs.execStatus_eq_zero_iff s, Proofs.execStatus_neg_iff s, Proofs.execStatus_pos_iff s,
+   fun _ h => ⟨Proofs.waitKind_exited_lt h, Proofs.execStatus_exited h⟩,
+   fun _ h => ⟨(Proofs.waitKind_signaled_range h).1, (Proofs.waitKind_signaled_range h).2, Proofs.execStatus_signaled h⟩⟩
+
+/-- The statuses the checks exercise, as raw wait statuses (`code * 256`, `signal`, `signal + 128` with a core dump). -/
+example :
+    [0, 1, 2, 126, 127, 128, 129, 200, 255].map (fun c => execStatus (c * 256)) = [0, 1, 2, 126, -1, 128, 129, 200, 255] ∧
+    [15, 9, 11, 11 + 128, 6 + 128].map execStatus = [143, 137, 139, 139, 134] := by decide
+
+/-- A child whose `execvp` fails exits with `Model.execvpFailedStatus` = 127 whatever the reason (ENOENT, EACCES, ...):
+for the parent that is the fatal value -1, never a positive "ran and said no". -/
+theorem C13_execvp_failure_is_fatal : execStatus (execvpFailedStatus * 256) = -1 ∧ Proofs.waitKind (execvpFailedStatus * 256) = .exited 127 := by
+  decide
+
+/-- Reading the three results `exec()` consumes. -/
+theorem C13_child_outcome (d : Bool) (f w : Res) :
+    (∀ k, Proofs.childOutcome d f w = .waited k ↔ d = true ∧ ∃ pid s, f = .ok pid ∧ w = .ok s ∧ Proofs.waitKind s = k) ∧
+    (Proofs.childOutcome d f w = .cannotRun ↔ d = false ∨ (∀ pid, f ≠ .ok pid) ∨ (∀ s, w ≠ .ok s)) ∧
+    Model.execValue d f w = Proofs.outcomeValue (Proofs.childOutcome d f w) :=
+  ⟨Proofs.childOutcome_waited_iff d f w, Proofs.childOutcome_cannotRun_iff d f w, Proofs.execValue_outcome d f w⟩
+
+/-- **The `command` condition, for every wait status.**  `Model.eval` on a `command` node whose strings interpolate to
+`av`, in an environment whose command oracle returns what `exec()` derives from the results `d` (/dev/null opened), `f`
+(`fork`), `w` (`waitpid`) - by `C13_status` every value of `exec()` has this form:
+
+* the condition MATCHES iff the child was waited for and exited with 0;
+* it does NOT match iff the child was waited for and exited with a status in 1..126 or 128..255, or was killed by a
+  signal (or is reported stopped);
+* it is an ERROR iff /dev/null could not be opened, `fork` failed, `waitpid` failed, or the child exited with 127 (what
+  the child does when `execvp` fails);
+
+and in every case the match list is left as it was. -/
+theorem C13_command_status (env : Env) (root : Msg) (lno : Nat) (argv av : List Bytes) (part : Nat) (m : Msg) (st : St)
+    (hav : argv.mapM (interpolate st.ml none) = some av)
+    (d : Bool) (f w : Res) (hrc : env.command av = Model.execValue d f w) :
+    let o := Proofs.childOutcome d f w
+    let r := eval env root (.command lno argv) part m st
+    r.2 = st ∧
+    (r.1 = .match ↔ o = .waited (.exited 0)) ∧
+    (r.1 = .nomatch ↔ (∃ c, o = .waited (.exited c) ∧ c ≠ 0 ∧ c ≠ 127) ∨ (∃ g, o = .waited (.signaled g)) ∨ o = .waited .stopped) ∧
+    (r.1 = .error ↔ o = .cannotRun ∨ o = .waited (.exited 127)) := by
+  have hv : eval env root (.command lno argv) part m st = (Proofs.outcomeTri (Proofs.childOutcome d f w), st) := by
+    rw [Proofs.eval_command, hav]
+    simp only [hrc, Proofs.execValue_outcome, Proofs.commandTri_outcome]
+  simp only [hv]
+  exact ⟨trivial, Proofs.outcomeTri_match_iff _, Proofs.outcomeTri_nomatch_iff _, Proofs.outcomeTri_error_iff _⟩
+
+/-- The same with the command run by `Model.execP` against ARBITRARY call results `orc` (call 0 opens /dev/null, call 1
+is `fork`, call 2 `waitpid`). -/
+theorem C13_command_status_run (env : Env) (root : Msg) (lno : Nat) (argv av : List Bytes) (part : Nat) (m : Msg) (st : St)
+    (hav : argv.mapM (interpolate st.ml none) = some av) (orc : Nat → Call → Res)
+    (hrc : env.command av = (runOracle orc (execP none) 0 []).1) :
+    let o := Proofs.childOutcome (match orc 0 (.openPath (ofString "/dev/null")) with | .ok _ => true | _ => false)
+      (orc 1 .fork) (orc 2 .waitpid)
+    let r := eval env root (.command lno argv) part m st
+    r.2 = st ∧
+    (r.1 = .match ↔ o = .waited (.exited 0)) ∧
+    (r.1 = .nomatch ↔ (∃ c, o = .waited (.exited c) ∧ c ≠ 0 ∧ c ≠ 127) ∨ (∃ g, o = .waited (.signaled g)) ∨ o = .waited .stopped) ∧
+    (r.1 = .error ↔ o = .cannotRun ∨ o = .waited (.exited 127)) :=
+  C13_command_status env root lno argv av part m st hav _ _ _ (hrc.trans (Proofs.execP_none_value orc))
+
+/-- A `command` condition whose strings do not interpolate (a back-reference to a group that does not exist) is an error
+and runs nothing. -/
+theorem C13_command_interpolation_error (env : Env) (root : Msg) (lno : Nat) (argv : List Bytes) (part : Nat) (m : Msg) (st : St)
+    (hav : argv.mapM (interpolate st.ml none) = none) :
+    eval env root (.command lno argv) part m st = (.error, st) := by
+  rw [Proofs.eval_command, hav]
+
+/-- An environment whose command oracle is `exec()` on the given `fork` / `waitpid` results. -/
+def exampleCommandEnv (f w : Res) : Env where
+  rx := fun _ _ => .nomatch
+  command := fun _ => Model.execValue true f w
+  isDir := fun _ => false
+  now := 0
+  strptime := fun _ => none
+  zoneName := fun _ => none
+  fileTime := fun _ => none
+  dryrun := false
+  path := []
+
+def exampleCommandVerdict (f w : Res) : Tri :=
+  (eval (exampleCommandEnv f w) (parseMessage []) (.command 1 [[120]]) 0 (parseMessage []) { ml := [], flags := ⟨0, 0⟩ }).1
+
+/-- Non-vacuity of `C13_command_status` and the table of the statuses the checks exercise: `command "x"` with a child that
+exits 0 / 1 / 126 / 127 / 128 / 129 / 200 / 255, dies of SIGTERM / SIGKILL / SIGSEGV (with core), cannot be forked,
+cannot be waited for. -/
+example :
+    ([[120]].mapM (interpolate [] none) = some [[120]]) ∧
+    [0, 1, 126, 127, 128, 129, 200, 255].map (fun c => exampleCommandVerdict (.ok 7) (.ok (c * 256))) =
+      [.match, .nomatch, .nomatch, .error, .nomatch, .nomatch, .nomatch, .nomatch] ∧
+    [15, 9, 11 + 128].map (fun s => exampleCommandVerdict (.ok 7) (.ok s)) = [.nomatch, .nomatch, .nomatch] ∧
+    exampleCommandVerdict (.err "EAGAIN") (.ok 0) = .error ∧ exampleCommandVerdict (.ok 7) (.err "ECHILD") = .error := by
+  simp only [exampleCommandVerdict, Proofs.eval_command]
+  decide +kernel
+
+/-- The hypotheses of `C13_command_status` / `_run` are satisfiable: a child killed by SIGKILL (wait status 9) is "no match". -/
+example :
+    (eval (exampleCommandEnv (.ok 7) (.ok 9)) (parseMessage []) (.command 1 [[120]]) 0 (parseMessage []) { ml := [], flags := ⟨0, 0⟩ }).1 = .nomatch :=
+  (C13_command_status (exampleCommandEnv (.ok 7) (.ok 9)) (parseMessage []) 1 [[120]] [[120]] 0 (parseMessage []) { ml := [], flags := ⟨0, 0⟩ }
+    (by decide +kernel) true (.ok 7) (.ok 9) rfl).2.2.1.2 (.inr (.inl ⟨9, by decide +kernel⟩))
 
 /-! ## The argument vector is exactly what was configured -/
 
@@ -94,6 +217,223 @@ example :
     some [[101, 99, 104, 111], [97, 32, 98]] := by
   decide +kernel
 
+/-! ## (package ce10) What an `exec stdin` child reads, across the ACTION LIST
+
+Vocabulary: `Spec/ExecSeq.lean`.  `Spec.uptoFork env pre mh st` is `matches_exec` on `pre ++ mh :: post`
+up to - not including - the `fork` of the exec entry `mh` (`C13_exec_stdin_fork_point`).  It is run
+against the results of an ARBITRARY oracle, threading the abstract file system (`Spec.runW`); the only
+hypothesis on the results is that each one is possible in the world it is given in
+(`Spec.PossibleRun`: `applyOk` has an effect for it, a call that creates a descriptor returns the
+next handle) - every errno at every call, every short count, every wait status is covered; these
+are the runs the call-by-call conformance of the process stages accepts. -/
+
+/-- `matches_exec` on `pre ++ mh :: post`, for an exec entry `mh` with `stdin`, IS `uptoFork` followed by
+`afterFork`; and when `uptoFork` ends in `fork st' fd`, the very next call is the `fork` of `exec()`,
+which was handed `fd` as the child's standard input (`execP (some fd)`). -/
+theorem C13_exec_stdin_fork_point (env : PEnv) (pre post : MatchList) (mh : Match) (st : ExecSt)
+    (hty : mh.ty = .exec) (hs : mh.execStdin = true) :
+    matchesExec env (pre ++ mh :: post) st = (Spec.uptoFork env pre mh st).bind (Spec.afterFork env post) ∧
+    ∀ st' fd, ∃ k, Spec.afterFork env post (.fork st' fd) = (execP (some fd)).bind k ∧
+      ∃ k', (execP (some fd)).bind k = Prog.call .fork k' :=
+  ⟨Proofs.ExecSeq.matchesExec_factor env pre post mh st hty hs, fun _ _ => ⟨_, rfl, _, rfl⟩⟩
+
+/-- **The descriptor handed to the child of `exec stdin` refers to the CURRENT message, at offset 0.**
+For every action list `pre` standing before the entry (any kinds, any number: label, add-header,
+move - also across devices -, flag, flags, discard, exec of every form, ...), every state and world
+in which the message is open on a file holding `orig` (`Spec.MsgOpen`), every oracle whose results
+are possible: if the run reaches the fork of `mh` (`exec stdin`, not `body`, not inside an
+attachment block) with descriptor `fd`, then in the world AT THAT FORK `fd` is a read-only handle
+on a file whose data is the content produced by the rewriting actions of `pre`
+(`Spec.rewrittenBefore`: `message_write` of the in-memory message if `pre` has a label / add-header,
+else the original bytes), and the last call before the fork is a successful `lseek(fd, 0, SEEK_SET)`.
+(The in-memory message already carries the headers of ALL label / add-header entries of the list:
+known finding F23.) -/
+theorem C13_exec_stdin_sees_current (env : PEnv) (pre : MatchList) (mh : Match) (st : ExecSt) (orig : Bytes) (w : World)
+    (orc : Nat → Call → Res) (i : Nat) (hb : mh.execBody = false) (hp : mh.part = 0)
+    (hopen : Spec.MsgOpen w st orig) (hposs : Spec.PossibleRun orc (Spec.uptoFork env pre mh st) w i)
+    (st' : ExecSt) (fd : Handle) (hres : (Spec.runW orc (Spec.uptoFork env pre mh st) w i).1 = .fork st' fd) :
+    Spec.RewoundOn (Spec.runW orc (Spec.uptoFork env pre mh st) w i).2 fd (Spec.rewrittenBefore pre st.ms.msg orig) :=
+  Proofs.ExecSeq.wpo_sound orc (Proofs.ExecSeq.spec_uptoFork_stdin env pre mh st hb hp hopen) i hposs st' fd hres
+
+/-- Non-vacuity (evaluated run, `Proofs/ExecSeqEx.lean`): `label exec stdin` on the message `A:b\n\nx\n` -
+the hypotheses hold, the run reaches the fork with descriptor 8, and the file behind it holds the
+rewritten `A: b\n\nx\n`. -/
+example : ∃ st', (Spec.runW Proofs.ExecSeq.exOrc1 (Spec.uptoFork Proofs.ExecSeq.exEnv [Proofs.ExecSeq.exLabel]
+      Proofs.ExecSeq.exExec Proofs.ExecSeq.exSt) Proofs.ExecSeq.exW 0).1 = .fork st' 8 ∧
+    Spec.RewoundOn (Spec.runW Proofs.ExecSeq.exOrc1 (Spec.uptoFork Proofs.ExecSeq.exEnv [Proofs.ExecSeq.exLabel]
+      Proofs.ExecSeq.exExec Proofs.ExecSeq.exSt) Proofs.ExecSeq.exW 0).2 8 Proofs.ExecSeq.exNew := by
+  obtain ⟨st', h⟩ := Proofs.ExecSeq.forkFd_eq Proofs.ExecSeq.ex1_fork
+  refine ⟨st', h, ?_⟩
+  rw [← Proofs.ExecSeq.ex1_content]
+  exact C13_exec_stdin_sees_current _ _ _ _ _ _ _ 0 rfl rfl Proofs.ExecSeq.ex_open Proofs.ExecSeq.ex1_possible st' 8 h
+
+/-- The same statement with the model's ghost field `MsgSt.content` ("what the file the message's
+ENTRY is bound to contains", the field the no-loss theorems of C01/C02 are about) in the place of
+`rewrittenBefore`.  It is FALSE for every list (`C13_exec_stdin_sees_content_false`) and proved for
+lists without move / flag / flags before the entry (`C13_exec_stdin_sees_content_partial`). -/
+def C13_exec_stdin_sees_content : Prop :=
+  ∀ (env : PEnv) (pre : MatchList) (mh : Match) (st : ExecSt) (orig : Bytes) (w : World) (orc : Nat → Call → Res) (i : Nat),
+    mh.execBody = false → mh.part = 0 → Spec.MsgOpen w st orig → st.ms.content = orig →
+    Spec.PossibleRun orc (Spec.uptoFork env pre mh st) w i →
+    ∀ (st' : ExecSt) (fd : Handle), (Spec.runW orc (Spec.uptoFork env pre mh st) w i).1 = .fork st' fd →
+      Spec.RewoundOn (Spec.runW orc (Spec.uptoFork env pre mh st) w i).2 fd st'.ms.content
+
+/-- What is missing in general is exactly the copy across devices: after `maildir_move` has copied
+the message to another device the ENTRY (in the destination maildir) holds `message_write` of the
+message, but `message_set_file(..., -1)` keeps the descriptor, which still refers to the unlinked
+source file.  Without move / flag / flags before the entry the two coincide. -/
+theorem C13_exec_stdin_sees_content_partial (env : PEnv) (pre : MatchList) (mh : Match) (st : ExecSt) (orig : Bytes) (w : World)
+    (orc : Nat → Call → Res) (i : Nat) (hb : mh.execBody = false) (hp : mh.part = 0)
+    (hnm : ∀ m ∈ pre, m.ty ≠ .move ∧ m.ty ≠ .flag ∧ m.ty ≠ .flags)
+    (hopen : Spec.MsgOpen w st orig) (hc : st.ms.content = orig)
+    (hposs : Spec.PossibleRun orc (Spec.uptoFork env pre mh st) w i)
+    (st' : ExecSt) (fd : Handle) (hres : (Spec.runW orc (Spec.uptoFork env pre mh st) w i).1 = .fork st' fd) :
+    Spec.RewoundOn (Spec.runW orc (Spec.uptoFork env pre mh st) w i).2 fd st'.ms.content := by
+  have h1 := C13_exec_stdin_sees_current env pre mh st orig w orc i hb hp hopen hposs st' fd hres
+  have h2 := Proofs.ExecSeq.All.runW (Proofs.ExecSeq.all_uptoFork_content env pre mh st hnm) orc w i st' fd hres
+  rw [h2, hc]
+  exact h1
+
+/-- Witness (evaluated run 2 of `Proofs/ExecSeqEx.lean`): `move "/b/new" exec stdin CMD` with `/b` on another
+device and the message `A:b\n\nx\n`: the child's descriptor refers to the source file (`A:b`), the entry
+in `/b/new` - and `MsgSt.content` - hold `A: b`. -/
+theorem C13_exec_stdin_sees_content_false : ¬ C13_exec_stdin_sees_content := by
+  intro h
+  obtain ⟨st', hr⟩ := Proofs.ExecSeq.forkFd_eq Proofs.ExecSeq.ex2_fork
+  have := h Proofs.ExecSeq.exEnv [Proofs.ExecSeq.exMove] Proofs.ExecSeq.exExec Proofs.ExecSeq.exSt Proofs.ExecSeq.exOrig
+    Proofs.ExecSeq.exW Proofs.ExecSeq.exOrc2 0 rfl rfl Proofs.ExecSeq.ex_open rfl Proofs.ExecSeq.ex2_possible st' 8 hr
+  obtain ⟨⟨fid, off, f, hobj, hfile, hdata⟩, -⟩ := this
+  rw [Proofs.ExecSeq.ex2_obj] at hobj
+  cases hobj
+  rw [Proofs.ExecSeq.ex2_file] at hfile
+  cases hfile
+  have hcont := Proofs.ExecSeq.ex2_content
+  rw [hr] at hcont
+  simp only [Proofs.ExecSeq.forkContent] at hcont
+  rw [hcont] at hdata
+  exact Proofs.ExecSeq.ex_differ hdata
+/-! ## Descriptor hygiene: what is open when a child is forked
+
+`Model.openFds tr` (Model/Fds.lean) is the descriptor table as a view of the trace: the handles created by the calls of
+`tr` (a successful `opendir`, `openat`, `open`, `fopen`, `fcntl(F_DUPFD_CLOEXEC)`, `mkostemp`) and not yet released
+(`close`, `closedir`, `fclose` release whatever they return); `openFdsBy` keeps the creating call with each handle.  The
+standard descriptors 0, 1, 2 are not created by a call of the run and are not in the list - they are the
+configuration-independent part of the table.  Everything is stated for ARBITRARY results of the calls (`runOracle`):
+every behaviour of the file system, every fault, every interleaving with other processes.
+
+`Proofs.Own.FdsAre tr S`: the open descriptors after `tr` are exactly the multiset `S` (every handle as often in
+`openFds tr` as in `S`).  `Proofs.Own.ForkFds tr`: there are `ds`, `m`, `s` with `FdsAre tr (ds ++ [m, s])`, where
+
+* `ds` are at most two directory streams, each returned by a successful `opendir` of the trace (the maildir being
+  walked - `new`, `cur` or the stdin spool - and, after a move or flag action, the maildir the message is in now);
+* `m` is the descriptor of the message, returned by a successful `openat(O_RDONLY|O_CLOEXEC)` of the trace;
+* `s` is the descriptor `exec()` makes the child's standard input (`Proofs.Own.ChildStdin tr s`): the call just before
+  the `fork` is the successful `open("/dev/null", O_RDONLY|O_CLOEXEC)` that returned `s`, or it is the successful
+  `lseek(s, 0, SEEK_SET)` of `message_get_fd` on a descriptor `s` obtained from `fcntl(F_DUPFD_CLOEXEC)` (the whole
+  message) or from `mkostemp(O_CLOEXEC)` (decoded body / one part);
+
+and nothing else: no descriptor of an earlier message, no write descriptor of a file being created, no temporary file, no
+stream of the configuration file, no third directory. -/
+
+/-- **Descriptor hygiene.**  For every configuration, registry, input and for ARBITRARY results of all calls: at every
+`fork` issued by a run of `main` - maildir mode or stdin mode, whatever actions precede the exec, inside or outside an
+attachment block - the descriptors the run has created and not released are exactly those `ForkFds` lists. -/
+theorem C13_fd_hygiene (env : PEnv) (orc : EvalOracles) (ok : Bool) (conf : List ConfBlock) (files : Files) (input : Bytes)
+    (orcl : Nat → Call → Res) (j : Nat) (r : Res)
+    (h : (runOracle orcl (mainP env orc ok conf files input) 0 []).2[j]? = some (.fork, r)) :
+    Proofs.Own.ForkFds ((runOracle orcl (mainP env orc ok conf files input) 0 []).2.take j) :=
+  Proofs.Own.fd_hygiene env orc ok conf files input orcl j r h
+
+/-- **... and each of them was born close-on-exec.**  At every `fork`, every open descriptor, paired with the call that
+created it (`openFdsBy`), was created by a successful call of the trace whose model constructor is a close-on-exec form
+(`Call.cloexec`: `opendir`, `openRd`, `openExcl`, `openPath`, `dupfd`, `mkostemp`) - the one constructor that is not,
+`fopen` of the configuration file, is the first call of the run and its stream is closed by the second. -/
+theorem C13_fd_cloexec (env : PEnv) (orc : EvalOracles) (ok : Bool) (conf : List ConfBlock) (files : Files) (input : Bytes)
+    (orcl : Nat → Call → Res) (j : Nat) (r : Res)
+    (h : (runOracle orcl (mainP env orc ok conf files input) 0 []).2[j]? = some (.fork, r)) :
+    ∀ p ∈ openFdsBy ((runOracle orcl (mainP env orc ok conf files input) 0 []).2.take j),
+      p.2.cloexec = true ∧ (p.2, Res.ok p.1) ∈ (runOracle orcl (mainP env orc ok conf files input) 0 []).2.take j :=
+  Proofs.Own.fd_hygiene_cloexec env orc ok conf files input orcl j r h
+
+/-! Non-vacuity (Proofs/WorldFdsEx.lean): two evaluated runs of `main` over the maildir `/m` with one message, rule
+`match all exec "true"` resp. `match all exec stdin "cat"`, every call answered from a fixed list.  The `fork` is call 8
+resp. 9; the table there is `[(4, opendir /m/new), (5, openat 1.h), (6, open /dev/null)]` resp.
+`[(4, opendir /m/new), (5, openat 1.h), (6, dup of 5)]` with `lseek 6` as the call before; at the end nothing is open. -/
+example :
+    (Proofs.FdsEx.trace false)[8]? = some (.fork, .ok 0) ∧
+    openFdsBy ((Proofs.FdsEx.trace false).take 8) =
+      [(4, .opendir Proofs.exNew), (5, .openRd 4 Proofs.exName), (6, .openPath (ofString "/dev/null"))] ∧
+    openFds ((Proofs.FdsEx.trace false).take 8) = [4, 5, 6] ∧ openFds (Proofs.FdsEx.trace false) = [] ∧
+    (Proofs.FdsEx.trace true)[9]? = some (.fork, .ok 0) ∧
+    openFdsBy ((Proofs.FdsEx.trace true).take 9) = [(4, .opendir Proofs.exNew), (5, .openRd 4 Proofs.exName), (6, .dupfd 5)] ∧
+    ((Proofs.FdsEx.trace true).take 9).getLast? = some (.lseek 6, .ok 0) ∧ openFds (Proofs.FdsEx.trace true) = [] :=
+  Proofs.FdsEx.tables
+
+example : Proofs.Own.ForkFds ((Proofs.FdsEx.trace false).take 8) ∧ Proofs.Own.ForkFds ((Proofs.FdsEx.trace true).take 9) :=
+  ⟨C13_fd_hygiene _ _ _ _ _ _ _ 8 _ Proofs.FdsEx.tables.1, C13_fd_hygiene _ _ _ _ _ _ _ 9 _ Proofs.FdsEx.tables.2.2.2.2.1⟩
+
+/-- The constructors and their flags: which calls create a descriptor, and which of these are close-on-exec forms. -/
+theorem C13_cloexec_forms (c : Call) :
+    (c.opensFd = true ↔ (∃ p, c = .opendir p) ∨ (∃ d n, c = .openRd d n) ∨ (∃ d n, c = .openExcl d n) ∨ (∃ p, c = .openPath p) ∨
+      (∃ p, c = .fopen p) ∨ (∃ fd, c = .dupfd fd) ∨ (∃ t, c = .mkostemp t)) ∧
+    (c.cloexec = true ↔ c.opensFd = true ∧ ∀ p, c ≠ .fopen p) := by
+  cases c <;> simp [Call.opensFd, Call.cloexec]
+
+/-- **The child's standard input without `stdin`** is `/dev/null`: an exec entry without the `stdin` option opens
+`/dev/null` (read-only, close-on-exec) as its first call; if that succeeds the very next call is the `fork` (so
+`ChildStdin` holds with that descriptor); if it fails no child is started and the entry is an error. -/
+theorem C13_stdin_devnull (env : PEnv) (mh : Match) (st : ExecSt) (orcl : Nat → Call → Res) (i : Nat) (tr : List (Call × Res))
+    (hty : mh.ty = .exec) (hs : mh.execStdin = false) :
+    (∀ h, orcl i (.openPath Proofs.Own.devNull) = .ok h →
+      ∃ r rest, (runOracle orcl (execOne env mh st) i tr).2 =
+        tr ++ (Call.openPath Proofs.Own.devNull, Res.ok h) :: (Call.fork, r) :: rest) ∧
+    ((∀ h, orcl i (.openPath Proofs.Own.devNull) ≠ .ok h) →
+      (runOracle orcl (execOne env mh st) i tr).2 = tr ++ [(Call.openPath Proofs.Own.devNull, orcl i (.openPath Proofs.Own.devNull))] ∧
+      (runOracle orcl (execOne env mh st) i tr).1.2 = true) :=
+  Proofs.Own.exec_nostdin_child env mh st orcl i tr hty hs
+
+/-- **The child's standard input with `stdin`** (with `C11_exec_stdin`): an exec entry with the `stdin` option first runs
+`message_get_fd` for the message or the part the entry refers to (`Proofs.Own.execPart`); if that yields no descriptor
+no child is started and the entry is an error; if it yields `fd`, the run of the entry is: the calls `L0` of
+`message_get_fd`, none of which failed, by which `fd` was filled with the complete current message / the decoded body /
+the re-serialised part (`Spec.HandedOver`, see `C11_exec_stdin`), then the successful `lseek(fd, 0)`, then - as the very
+next call - the `fork`: the child reads that content from offset 0. -/
+theorem C13_stdin_content (env : PEnv) (mh : Match) (st : ExecSt) (orcl : Nat → Call → Res) (i : Nat) (tr : List (Call × Res))
+    (hty : mh.ty = .exec) (hs : mh.execStdin = true) :
+    ((runOracle orcl (messageGetFd env st.ms (Proofs.Own.execPart mh st) mh.execBody) i tr).1 = none →
+      (runOracle orcl (execOne env mh st) i tr).2 =
+        (runOracle orcl (messageGetFd env st.ms (Proofs.Own.execPart mh st) mh.execBody) i tr).2 ∧
+      (runOracle orcl (execOne env mh st) i tr).1.2 = true ∧
+      ∀ x ∈ (runOracle orcl (execOne env mh st) i tr).2.drop tr.length, x.1 ≠ .fork) ∧
+    (∀ fd, (runOracle orcl (messageGetFd env st.ms (Proofs.Own.execPart mh st) mh.execBody) i tr).1 = some fd →
+      ∃ L0 r rf rest, (runOracle orcl (execOne env mh st) i tr).2 = tr ++ L0 ++ [(.lseek fd, r)] ++ (Call.fork, rf) :: rest ∧
+        r.isErr = false ∧ (∀ x ∈ L0, Spec.failed x = false) ∧
+        Spec.HandedOver env st.ms (Proofs.Own.execPart mh st) mh.execBody fd L0) := by
+  obtain ⟨h1, h2⟩ := Proofs.Own.exec_stdin_child env mh st orcl i tr hty hs
+  refine ⟨fun hn => ⟨(h1 hn).1, (h1 hn).2, ?_⟩, fun fd hfd => ?_⟩
+  · rw [(h1 hn).1]
+    have hq := (Proofs.Own.wp_sound (R := fun _ _ => True) (I := fun _ c => c ≠ .fork) orcl (fun _ _ => True.intro)
+      (Proofs.Own.wp_calls (P := fun _ => True) (C := fun c => c ≠ .fork) (fun _ _ h => h)
+        (Proofs.Own.nofork_messageGetFd env st.ms (Proofs.Own.execPart mh st) mh.execBody) (Proofs.Own.All.trivial _) tr) i)
+    obtain ⟨-, ⟨L, hL⟩, hall⟩ := hq
+    intro x hx
+    rw [hL, List.drop_left] at hx
+    obtain ⟨k, hk, hxk⟩ := List.mem_iff_getElem.1 hx
+    exact hall (tr.length + k) x.1 x.2 (by omega) (by rw [hL, List.getElem?_append_right (by omega)]; simp [hxk, hk])
+  · obtain ⟨rf, rest, he⟩ := h2 fd hfd
+    obtain ⟨L0, r, hg, hr, hf, hh⟩ := Proofs.exec_stdin_handed_over env st.ms (Proofs.Own.execPart mh st) mh.execBody orcl i tr fd hfd
+    exact ⟨L0, r, rf, rest, by rw [he, hg], hr, hf, hh⟩
+
+/-! Non-vacuity of the two statements about the child's standard input: an exec entry without and with `stdin`; in the
+evaluated runs above the call before the `fork` is `open("/dev/null")` (call 7 of the first run) resp. `lseek` on the
+duplicate of the message's descriptor (call 8 of the second). -/
+example : ({ ty := .exec, lno := 1, part := 0 } : Match).ty = .exec ∧
+    ({ ty := .exec, lno := 1, part := 0 } : Match).execStdin = false ∧
+    ({ ty := .exec, lno := 1, part := 0, execStdin := true } : Match).execStdin = true := ⟨rfl, rfl, rfl⟩
+
+example : (Proofs.FdsEx.trace false)[7]? = some (.openPath Proofs.Own.devNull, .ok 6) ∧
+    (Proofs.FdsEx.trace true)[7]? = some (.dupfd 5, .ok 6) ∧ (Proofs.FdsEx.trace true)[8]? = some (.lseek 6, .ok 0) :=
+  Proofs.FdsEx.before_fork
 
 /-! ## The `command` condition inside a run (`expr_eval_command`)
 
@@ -106,15 +446,34 @@ configured string, in order (`List.mapM`), interpolated against the entries of t
 the evaluation asks exactly the question `command av` and is *match* if `exec()` returned 0, *error* if it returned a
 negative value (`C04_command_failure_causes`: `/dev/null`, `fork`, `waitpid` failed, or exit status 127) and *no match*
 otherwise (any other exit status, death by a signal); the entry is removed again. -/
-theorem C13_command_condition (env : Env) (tf : Int → Option Bytes) (root : Msg) (lno : Nat) (argv : List Bytes)
+theorem C13_command_condition (env : Env) (root : Msg) (lno : Nat) (argv : List Bytes)
     (part : Nat) (m : Msg) (st : St) (ml : MatchList) (av : List Bytes)
     (happ : matchesAppend env st.ml { ty := .command, lno := lno, part := part, strings := argv } = (ml, false))
     (hav : argv.mapM (interpolate ml.dropLast none) = some av) :
-    evalT env tf root (.command lno argv) part m st =
+    evalT env root (.command lno argv) part m st =
       (ask (.command av)).bind fun a =>
         .ret (if ansStatus a == 0 then .match else if ansStatus a < 0 then .error else .nomatch,
               { st with ml := ml.dropLast }) := by
   simp only [evalT, happ, hav, Bool.false_eq_true, ↓reduceIte]
+
+/-- **`C13_command_status` inside the run** (its corollary through `Proofs.evalT_command_run`: the command oracle of the
+evaluator-level statement IS `exec()` on the results of the three calls this run makes for the condition - `open("/dev/null")`
+at step `j`, `fork` at `j + 1`, `waitpid` at `j + 2`): for every wait status the condition MATCHES iff the child was waited
+for and exited 0, does NOT match iff it exited with 1..126 / 128..255 or was killed by a signal (or is reported stopped), is
+an ERROR iff it could not be run or exited with 127; the match list is left as it was. -/
+theorem C13_command_condition_status (env : Env) (root : Msg) (lno : Nat) (argv av : List Bytes) (part : Nat) (m : Msg)
+    (st : St) (hav : argv.mapM (interpolate st.ml none) = some av) (orcl : Nat → Call → Res) (j : Nat) :
+    let o := Proofs.childOutcome (match orcl j (.openPath (ofString "/dev/null")) with | .ok _ => true | _ => false)
+      (orcl (j + 1) .fork) (orcl (j + 2) .waitpid)
+    let r := (Proofs.Own.runO orcl (evalT env root (.command lno argv) part m st).toProg j).1
+    r.2 = st ∧
+    (r.1 = .match ↔ o = .waited (.exited 0)) ∧
+    (r.1 = .nomatch ↔ (∃ c, o = .waited (.exited c) ∧ c ≠ 0 ∧ c ≠ 127) ∨ (∃ g, o = .waited (.signaled g)) ∨ o = .waited .stopped) ∧
+    (r.1 = .error ↔ o = .cannotRun ∨ o = .waited (.exited 127)) := by
+  intro o r
+  have hr : r = _ := Proofs.evalT_command_run env root lno argv part m st orcl j
+  rw [hr]
+  exact C13_command_status _ root lno argv av part m st hav _ _ _ rfl
 
 /-- Non-vacuity: `command { "t" "a b" }` in an empty rule context: two arguments, the second with its blank. -/
 example :
